@@ -80,8 +80,8 @@ M = {
         {'C12': 'C12.R1'}, 'code string no longer matches the isinstance callable'),
     'explain-annotated-first-validator-only': ([E593], sub(E593, "    for hint_validator in hint_validators:", "    for hint_validator in hint_validators[:1]:"),
         {'C12': 'C12.R4'}, 'explanation path ignores later validators'),
-    'explain-container-enumerates-non-collections': ([ECON], sub(ECON, "    if isinstance(cause.pith, Collection):", "    if True:"),
-        {'C10': 'C10.R2'}, 'explanation path iterates a one-shot iterable'),
+    'explain-container-enumerates-non-collections': ([ECON], sub(ECON, "        not isinstance(cause.pith, Collection) or\n", ""),
+        {'C10': 'C10.R2'}, 'explanation path measures and iterates a one-shot iterable (the guard added by the F17 fix removed)'),
     'explain-mapping-scans-under-o1': ([EMAP], sub(EMAP, "        pith_items = (pith_item,)", "        pith_items = tuple(cause.pith.items())"),
         {'C09': 'C09.R3'}, 'explanation path is linear under O1'),
     'pith-var-index-not-bumped': ([CM], sub(CM, "                    hint_tree.hint_curr.pith_var_name_index += 1\n\n                    # Assignment expression",
@@ -90,6 +90,8 @@ M = {
     'template-field-renamed': ([D85], sub(D85, "isinstance({pith_curr_assign_expr}, type) and", "isinstance({pith_curr_assign_expression}, type) and"),
         {'C01': 'C01.R1'}, 'KeyError at decoration time for type[...] hints'),
     # ---- neutral ----------------------------------------------------------------
+    'n-explain-redundant-collection-test-dropped': ([ECON], sub(ECON, "    if isinstance(cause.pith, Collection):", "    if True:"),
+        {'C10': None}, 'since the F17 fix the early return covers non-collections: the second test is redundant (the former shape rule reported this)'),
     'n-template-comment-edit': ([D85], sub(D85, "# True only if this pith is of this container type *AND*...", "# True iff this pith is an instance of this container."),
         {'C01': None, 'C02': None, 'C09': None, 'C10': None, 'C12': None}, 'comment inside a template'),
     'n-template-extra-parens': ([D85], sub(D85, "(not len({pith_curr_var_name}) or {hint_child_placeholder})", "((not len({pith_curr_var_name})) or ({hint_child_placeholder}))"),
